@@ -718,53 +718,34 @@ func (self *_parser) parseRelationalExpression() ast.Expression {
 		self.scope.allowIn = allowIn
 	}()
 
-	switch self.token {
-	case token.LESS, token.LESS_OR_EQUAL, token.GREATER, token.GREATER_OR_EQUAL:
-		tkn := self.token
-		if self.mode&StoreComments != 0 {
-			self.comments.Unset()
-		}
-		self.next()
-
-		exp := &ast.BinaryExpression{
-			Operator:   tkn,
-			Left:       left,
-			Right:      self.parseRelationalExpression(),
-			Comparison: true,
-		}
-		return exp
-	case token.INSTANCEOF:
-		tkn := self.token
-		if self.mode&StoreComments != 0 {
-			self.comments.Unset()
-		}
-		self.next()
-
-		exp := &ast.BinaryExpression{
-			Operator: tkn,
-			Left:     left,
-			Right:    self.parseRelationalExpression(),
-		}
-		return exp
-	case token.IN:
-		if !allowIn {
+	// Relational operators are left-associative (ECMA-262 11.8): a < b < c is (a < b) < c
+	for {
+		comparison := false
+		switch self.token {
+		case token.LESS, token.LESS_OR_EQUAL, token.GREATER, token.GREATER_OR_EQUAL:
+			comparison = true
+		case token.INSTANCEOF:
+		case token.IN:
+			if !allowIn {
+				return left
+			}
+		default:
 			return left
 		}
+
 		tkn := self.token
 		if self.mode&StoreComments != 0 {
 			self.comments.Unset()
 		}
 		self.next()
 
-		exp := &ast.BinaryExpression{
-			Operator: tkn,
-			Left:     left,
-			Right:    self.parseRelationalExpression(),
+		left = &ast.BinaryExpression{
+			Operator:   tkn,
+			Left:       left,
+			Right:      next(),
+			Comparison: comparison,
 		}
-		return exp
 	}
-
-	return left
 }
 
 func (self *_parser) parseEqualityExpression() ast.Expression {
